@@ -108,6 +108,17 @@ func (s *V2SessionlessTransport) newV2Session(ctx context.Context, opts *V2Sessi
 	if err != nil {
 		return nil, err
 	}
+	// the BMC must confirm exactly the algorithms proposed; anything else,
+	// e.g. a weaker algorithm, is not something the caller agreed to
+	if openSessionRsp.AuthenticationPayload.Algorithm != cipherSuite.AuthenticationAlgorithm ||
+		openSessionRsp.IntegrityPayload.Algorithm != cipherSuite.IntegrityAlgorithm ||
+		openSessionRsp.ConfidentialityPayload.Algorithm != cipherSuite.ConfidentialityAlgorithm {
+		return nil, fmt.Errorf("BMC selected algorithms %v, %v, %v; proposed %v",
+			openSessionRsp.AuthenticationPayload.Algorithm,
+			openSessionRsp.IntegrityPayload.Algorithm,
+			openSessionRsp.ConfidentialityPayload.Algorithm,
+			cipherSuite)
+	}
 
 	// RAKP Message 1, 2
 	remoteConsoleRandom := [16]byte{}
